@@ -897,11 +897,17 @@ theorem authToHeader_ok {ε : Type} (s : Bytes) (len : Nat) (h : authSliceLen s 
         rw [hlen, if_neg (by omega), if_neg (by omega)]
         exact ⟨_, rfl⟩
 
-theorem fromSliceLoop_no_panic (slice : Bytes) (result : Exts) (rest : Bytes) (next : Nat) :
+theorem lenErrAt_ne_panic (slice rest : Bytes) (err : LenError) (h : rest.length ≤ slice.length) :
+    lenErrAt slice rest err ≠ .panic := by
+  simp [lenErrAt, h]
+
+theorem fromSliceLoop_no_panic (slice : Bytes) (result : Exts) (rest : Bytes) (next : Nat)
+    (h : rest.length ≤ slice.length) :
     fromSliceLoop slice result rest next ≠ .error .panic := by
   fun_induction fromSliceLoop slice result rest next
   all_goals try (simp; done)
-  all_goals try assumption
+  all_goals try (simp; exact lenErrAt_ne_panic _ _ _ h)
+  all_goals try (rename_i ih; exact ih (by simp; omega))
   all_goals
     rename_i hl f hf
     first
@@ -916,8 +922,125 @@ theorem fromSlice_no_panic (first : Nat) (slice : Bytes) : Exts.fromSlice first 
     · rename_i len hl
       obtain ⟨r, hr⟩ := rawToHeader_ok _ _ hl
       simp only [hr]
-      exact fromSliceLoop_no_panic _ _ _ _
-  · exact fromSliceLoop_no_panic _ _ _ _
+      exact fromSliceLoop_no_panic _ _ _ _ (by simp)
+  · exact fromSliceLoop_no_panic _ _ _ _ (Nat.le_refl _)
+
+
+/-! ### decode window -/
+
+theorem rawToHeader_len (s : Bytes) (len : Nat) (r : Raw) (h : rawSliceLen s = .ok len)
+    (hr : rawToHeader s len = .ok r) : r.headerLen = len ∧ len ≤ s.length := by
+  unfold rawSliceLen at h
+  split at h
+  · simp at h
+  · simp only at h
+    split at h
+    · simp at h
+    · simp at h
+      have hb := bAt_lt s 1
+      have hlen : (sub s 2 (len - 2)).length = len - 2 := sub_length s 2 (len - 2) (by omega)
+      unfold rawToHeader Raw.newRaw at hr
+      rw [hlen, if_neg (by omega), if_neg (by omega), if_neg (by omega)] at hr
+      simp at hr
+      subst hr
+      simp [Raw.headerLen, Raw.headerLength, hlen]
+      omega
+
+theorem authToHeader_len {ε : Type} (s : Bytes) (len : Nat) (a : Auth) (h : authSliceLen s = .ok len)
+    (hr : authToHeader (ε := ε) s len = .ok a) : a.headerLen = len ∧ len ≤ s.length := by
+  unfold authSliceLen at h
+  split at h
+  · simp at h
+  · simp only at h
+    split at h
+    · simp at h
+    · split at h
+      · simp at h
+      · simp at h
+        have hb := bAt_lt s 1
+        have hlen : (sub s 12 (len - 12)).length = len - 12 := sub_length s 12 (len - 12) (by omega)
+        unfold authToHeader Auth.new at hr
+        rw [hlen, if_neg (by omega), if_neg (by omega)] at hr
+        simp at hr
+        subst hr
+        simp [Auth.headerLen, Auth.rawIcvLen, hlen]
+        omega
+
+def osum {α : Type} (f : α → Nat) : Option α → Nat
+  | some a => f a
+  | none => 0
+
+theorem headerLen_eq (e : Exts) : e.headerLen =
+    osum Raw.headerLen e.hopByHopOptions + osum Raw.headerLen e.destinationOptions +
+    osum (fun r => r.routing.headerLen + osum Raw.headerLen r.finalDestinationOptions) e.routing +
+    osum Frag.headerLen e.fragment + osum Auth.headerLen e.auth := by
+  rcases e with ⟨_ | a, _ | b, _ | ⟨c, _ | d⟩, _ | f, _ | g⟩ <;> simp [Exts.headerLen, osum] <;> omega
+
+/-- what has been read so far is exactly the serialised length of the headers decoded so far. -/
+def Window (slice : Bytes) (result : Exts) (rest : Bytes) : Prop :=
+  ∃ pre, slice = pre ++ rest ∧ pre.length = result.headerLen
+
+theorem Window.step (slice : Bytes) (result result' : Exts) (rest : Bytes) (len : Nat)
+    (h : Window slice result rest) (hlen : len ≤ rest.length) (hr : result'.headerLen = result.headerLen + len) :
+    Window slice result' (rest.drop len) := by
+  obtain ⟨pre, hs, hp⟩ := h
+  refine ⟨pre ++ rest.take len, ?_, ?_⟩
+  · rw [List.append_assoc, List.take_append_drop]; exact hs
+  · simp [hp, hr]; omega
+
+theorem fromSliceLoop_window (slice : Bytes) (result : Exts) (rest : Bytes) (next : Nat)
+    (e : Exts) (n : Nat) (rest' : Bytes)
+    (h : fromSliceLoop slice result rest next = .ok (e, n, rest'))
+    (hw : Window slice result rest) : Window slice e rest' := by
+  fun_induction fromSliceLoop slice result rest next
+  all_goals try (simp at h; done)
+  all_goals try (simp at h; obtain ⟨rfl, rfl, rfl⟩ := h; exact hw)
+  case case5 result rest routing hr hf len hl header hh ih =>
+    obtain ⟨h1, h2⟩ := rawToHeader_len _ _ _ hl hh
+    exact ih h (Window.step _ _ _ _ _ hw h2 (by simp [headerLen_eq, osum, hr, hf, h1]; omega))
+  case case9 result rest hr hd len hl header hh ih =>
+    obtain ⟨h1, h2⟩ := rawToHeader_len _ _ _ hl hh
+    exact ih h (Window.step _ _ _ _ _ hw h2 (by simp [headerLen_eq, osum, hr, hd, h1]; omega))
+  case case13 result rest hr len hl header hh ih =>
+    obtain ⟨h1, h2⟩ := rawToHeader_len _ _ _ hl hh
+    exact ih h (Window.step _ _ _ _ _ hw h2 (by simp [headerLen_eq, osum, hr, h1]; omega))
+  case case16 result rest hfr header hh ih =>
+    have h2 : 8 ≤ rest.length := by
+      unfold fragFromSlice at hh; split at hh <;> simp at hh; omega
+    exact ih h (Window.step _ _ _ _ _ hw h2 (by simp [headerLen_eq, osum, hfr, Frag.headerLen]; omega))
+  case case21 result rest ha len hl header hh ih =>
+    obtain ⟨h1, h2⟩ := authToHeader_len _ _ _ hl hh
+    exact ih h (Window.step _ _ _ _ _ hw h2 (by simp [headerLen_eq, osum, ha, h1]))
+
+/-- `from_slice` returns as `rest` the suffix of the input behind exactly `header_len()` bytes. -/
+theorem fromSlice_window (first : Nat) (slice : Bytes) (e : Exts) (n : Nat) (rest : Bytes)
+    (h : Exts.fromSlice first slice = .ok (e, n, rest)) :
+    ∃ pre, slice = pre ++ rest ∧ pre.length = e.headerLen := by
+  unfold Exts.fromSlice at h
+  split at h
+  · split at h
+    · simp at h
+    · rename_i len hl
+      split at h
+      · simp at h
+      · rename_i header hh
+        obtain ⟨h1, h2⟩ := rawToHeader_len _ _ _ hl hh
+        refine fromSliceLoop_window _ _ _ _ _ _ _ h ?_
+        exact Window.step slice Exts.empty _ slice len ⟨[], by simp, by simp [Exts.headerLen, Exts.empty]⟩ h2
+          (by simp [Exts.headerLen, Exts.empty, h1])
+  · exact fromSliceLoop_window _ _ _ _ _ _ _ h ⟨[], by simp, by simp [Exts.headerLen, Exts.empty]⟩
+
+
+theorem setNextHeaders_WF (e e' : Exts) (n first' : Nat) (hn : n < 256) (hwf : e.WF)
+    (h : e.setNextHeaders n = (e', first')) : e'.WF := by
+  rcases e with ⟨_ | a, _ | b, _ | ⟨c, _ | d⟩, _ | f, _ | g⟩ <;>
+    simp [Exts.setNextHeaders] at h <;> obtain ⟨rfl, rfl⟩ := h <;>
+    simp_all [Exts.WF, optWF, Raw.WF, Frag.WF, Auth.WF, AUTH, IPV6_FRAG, IPV6_ROUTE, IPV6_DEST_OPTIONS]
+
+theorem setNextHeaders_isFrag (e : Exts) (n : Nat) :
+    (e.setNextHeaders n).1.isFragmentingPayload = e.isFragmentingPayload := by
+  rcases e with ⟨_ | a, _ | b, _ | ⟨c, _ | d⟩, _ | f, _ | g⟩ <;>
+    simp [Exts.setNextHeaders, Exts.isFragmentingPayload, Frag.isFragmentingPayload]
 
 
 end EpModel.Ext
